@@ -4,5 +4,5 @@
 import sys
 sys.path[:0] = ['/repo' + "/pulser-core", '/repo' + "/pulser-simulation", "/verif"]
 from symx.replay import replay
-sys.exit(replay(check='checks.c07', kernel='eom_drift', shape={'cfg': {'lim': 'R', 'ctrl': ['B']}, 'program': [['enable', 2.0, 0.0, -1.0], ['modify', 1.0, 0.0, 3.0], ['eom_pulse', 0.0], ['disable']], 'custom_buffer': 40, 'kmax': 12},
-                assignment={'d2/k': 2}, label='k4:modify_compensates_drift'))
+sys.exit(replay(check='checks.c07', kernel='eom_drift', shape={'cfg': {'lim': 'R', 'ctrl': ['B']}, 'program': [['enable', 2.0, 0.0, -1.0], ['modify', 1.0, 0.0, 3.0], ['eom_pulse', 0.0], ['disable']], 'custom_buffer': None, 'kmax': 12},
+                assignment={'d2/k': 2, 'buf#1.start': 0, 'buf#1.end': 12, 'buf#2.start': 0, 'buf#2.end': 13}, label='k4:modify_compensates_drift'))
